@@ -341,9 +341,23 @@ def key_cmp_tuple(path):
 # Real-implementation side
 # ------------------------------------------------------------------------------------------
 
+def literal(x, ext):
+  """`{'from_ext': path}` (the node at that path of the second tree, handed in as it is) -> a copy of that
+  sub-tree: what the receiving container ends up holding."""
+  if isinstance(x, dict) and 'from_ext' in x:
+    return json.loads(json.dumps(get_at(ext, x['from_ext'])))
+  if isinstance(x, list):
+    return [literal(y, ext) for y in x]
+  if isinstance(x, dict):
+    return {k: literal(v, ext) for k, v in x.items()}
+  return x
+
+
 def build(t):
   import pyglove as pg
   cls = classes()
+  if isinstance(t, dict) and 'from_ext' in t:
+    return navigate(_EXT[0], t['from_ext'])      # a node that BELONGS TO THE OTHER TREE, handed in as it is
   if not is_node(t):
     if isinstance(t, dict) and t.get('missing'):
       return pg.MISSING_VALUE
@@ -625,11 +639,61 @@ REACT = {}        # node id -> {'recv': path from the root, 'call': call}
 RSTATE = {'root': None, 'fuel': 0, 'depth': 0, 'stack': [0], 'next': 1, 'calls': []}
 
 
+READERS = [False]  # handlers READ derived facts of the written node and all its ancestors while the dispatch is going on
+PRE_OBJS = {}      # before the call: absolute path (tuple) -> the symbolic object stored there (all trees of the case)
+
+
+def snapshot_objects(*roots):
+  PRE_OBJS.clear()
+  for r in roots:
+    if r is None:
+      continue
+    for p_, n_ in sym_nodes(r):
+      PRE_OBJS[(id(r),) + tuple(p_)] = n_
+
+
+def payload_identity(updates):
+  """The payload must be THE objects: `new_value` is what the owning container holds now (a value handed
+  in is converted / copied on the way in: the event carries what was stored, never a plain dict / list and
+  never a node that lives elsewhere), `old_value` is the object that was stored there before the call."""
+  import pyglove as pg
+  bad = []
+  for k, u in updates.items():
+    nv, ov = u.new_value, u.old_value
+    tgt = u.target
+    holder = getattr(tgt, '_sym_attributes', tgt) if isinstance(tgt, pg.Object) else tgt
+    if isinstance(nv, (dict, list)) and not isinstance(nv, pg.Symbolic):
+      bad.append([list(k.keys), 'new_value is a plain %s, the container stores a symbolic one' % type(nv).__name__])
+    elif isinstance(nv, pg.Symbolic) and isinstance(holder, (pg.List, pg.Dict)):
+      if not any(nv is v for v in holder.sym_values()):
+        bad.append([list(k.keys), 'new_value (sym_path %s) is not an object held by the container that was written' % nv.sym_path])
+    if isinstance(ov, (dict, list)) and not isinstance(ov, pg.Symbolic):
+      bad.append([list(k.keys), 'old_value is a plain %s' % type(ov).__name__])
+    elif isinstance(ov, pg.Symbolic) and PRE_OBJS:
+      root_ = u.target.sym_root
+      was = PRE_OBJS.get((id(root_),) + tuple(u.path.keys))
+      if was is not None and was is not ov and not any(ov is x for x in PRE_OBJS.values()):
+        bad.append([list(k.keys), 'old_value is not an object that was in the tree before the call'])
+  return bad
+
+
 def on_event(rid, updates):
   """Every handler of the harness: log the event (canonicalised at once, tagged with the call it
   belongs to), then -- if the case says so and the nesting bound is not reached -- issue the nested call."""
   LOG.append({'recv': rid, 'call': RSTATE['stack'][-1],
-              'entries': [[list(k.keys), canon(u.old_value), canon(u.new_value)] for k, u in updates.items()]})
+              'entries': [[list(k.keys), canon(u.old_value), canon(u.new_value)] for k, u in updates.items()],
+              'ident': payload_identity(updates)})
+  if READERS[0]:
+    # a handler that looks at derived state of its surroundings (`self.sym_root.is_partial`, ...): what it
+    # makes the nodes memoise must not survive the call if the contents still change (placeholders dropped)
+    for u in updates.values():
+      n_ = u.target
+      while n_ is not None:
+        try:
+          n_.sym_nondefault(); n_.sym_missing(); bool(n_.is_partial); bool(n_.sym_puresymbolic)
+        except Exception:    # pylint: disable=broad-except
+          pass
+        n_ = n_.sym_parent
   r = REACT.get(rid)
   if r is None or RSTATE['depth'] >= RSTATE['fuel']:
     return
@@ -958,6 +1022,13 @@ class C09(Prop):
           'schema-bound Dict or an object, by assignment or one-pair rebind from the owner or an ancestor, followed by '
           'mutations inside the value that stayed in place (events at every subscribing ancestor, memo freshness) and '
           'accepted replacements. '
+          '300 histories in which EVERY handler reads derived facts (sym_nondefault, sym_missing, is_partial, '
+          'sym_puresymbolic) of the written node and all its ancestors during the dispatch, under notified batched '
+          'rebinds that delete List items and write inside a later item of the same list; 300 histories in which a node '
+          'that belongs to the second tree is written into a List / Dict / object field (append, insert, extend, item / '
+          'slice assignment, rebind, update). In ALL streams the handlers check the payload by IDENTITY: new_value is an '
+          'object the written container holds (never a plain dict / list, never a node living elsewhere), a symbolic '
+          'old_value is an object that was in the tree before the call. '
           'Object classes form the hierarchy Plain -> Mid -> Sub (only Sub overrides _on_change) and are created '
           'afresh for every case. A second, oracle-only stream inserts partial objects, pure-symbolic and non-deterministic values. '
           'Non-trivial: some node on the path from the root to a written location subscribes; distinct by JSON.')
@@ -986,6 +1057,10 @@ class C09(Prop):
       'pg.Ref items and their ancestors are Dicts / Lists (observation F380: the flattened sym_nondefault() of an '
       'OBJECT with a Dict-valued field walks through the references); "fresh computation" for a tree holding pg.Ref '
       'items is a deep clone (JSON cannot carry them)',
+      'handlers that read derived facts during dispatch exist on the implementation side only: the model has no '
+      'reads inside a dispatch (by C09_fresh its reported values do not depend on which memos are filled); the '
+      'identity of payload objects is checked by the harness handlers (FieldUpdate.target / sym_values), the model '
+      'carries values, not identities',
       'position-shifting list calls: the contract is read on the edit (removed item -> MISSING at its former position, '
       'MISSING -> inserted item at its new position, old -> new for replaced items)',
   ]
@@ -1014,6 +1089,10 @@ class C09(Prop):
     for c in self.ref_item_cases(rng, 350 if tier == 'quick' else 7000):
       yield c
     for c in self.rejected_write_cases(rng, 400 if tier == 'quick' else 8000):
+      yield c
+    for c in self.reading_handler_cases(rng, 300 if tier == 'quick' else 6000):
+      yield c
+    for c in self.foreign_value_cases(rng, 300 if tier == 'quick' else 6000):
       yield c
 
   def read_cases(self, rng, n):
@@ -1572,11 +1651,106 @@ class C09(Prop):
         continue
       yield {'tree': t, 'steps': steps, 'rules': True}
 
+  def reading_handler_cases(self, rng, n):
+    """Every handler READS derived facts (sym_nondefault, sym_missing, is_partial, sym_puresymbolic) of the
+    node that was written and of all its ancestors while the dispatch is still going on. The calls are
+    notified batched rebinds that delete List items (path -> MISSING_VALUE) AND write inside a later
+    item of the same list (its handler runs before the list drops the placeholder), plus ordinary
+    calls; afterwards every memo must be fresh."""
+    g = Gen(rng)
+    made = 0
+    for _ in range(n * 8):
+      if made >= n:
+        break
+      g.next_id = 1
+      g.no_obj = rng.chance(0.3)
+      g.deletes = True
+      t = g.tree(rng.randint(2, 3), rng.choice(['dict', 'list', 'obj']), 1.0)
+      shadow = json.loads(json.dumps(t))
+      steps = []
+      good = False
+      for i in range(rng.randint(1, 3)):
+        lists = [(p, x) for p, x in all_nodes(shadow) if x['k'] == 'list' and len(x['items']) >= 2
+                 and any(is_node(c) and c.get('ref') is None for _, c in x['items'][1:])]
+        if not lists or rng.chance(0.2):
+          path, node = rng.choice(all_nodes(shadow))
+          step = {'recv': path, 'notify': True, 'call': g.call(shadow, path, node)}
+        else:
+          lpath, l = rng.choice(lists)
+          later = [j for j, c in l['items'] if j >= 1 and is_node(c)]
+          j = rng.choice(later)
+          dels = rng.sample(range(j), rng.randint(1, min(2, j)))
+          item = get_at(l, [j])
+          sub_nodes_ = all_nodes(item)
+          ipath, inode = rng.choice(sub_nodes_)
+          k, old = g.target(inode)
+          if k is None:
+            continue
+          cut = rng.randint(0, len(lpath))
+          recv, rel = lpath[:cut], lpath[cut:]
+          pairs = [[rel + [d], MISSING] for d in sorted(dels)] + [[rel + [j] + ipath + [k], g.value(old)]]
+          if get_at(shadow, recv)['k'] == 'list':
+            pairs.sort(key=lambda pv: key_cmp_tuple(pv[0]))
+          step = {'recv': recv, 'notify': True, 'call': {'name': 'rebind', 'pairs': pairs}}
+          good = True
+        steps.append(step)
+        mirror(shadow, json.loads(json.dumps(step)))
+        if any(is_node(n_) and n_['k'] == 'list' and any(is_missing(v_) for _, v_ in n_['items']) for _, n_ in all_nodes(shadow)):
+          break
+      if good:
+        made += 1
+        yield {'tree': t, 'steps': steps, 'readers': True}
+
+  def foreign_value_cases(self, rng, n):
+    """A node that BELONGS TO ANOTHER TREE is written into a List / Dict / object field (append, insert,
+    extend, item assignment, slice assignment, rebind, update), next to plain dicts / lists: the container
+    stores a copy, and the events carry that stored copy (identity), never the node of the other tree."""
+    g = Gen(rng)
+    made = 0
+    while made < n:
+      g.next_id = 1
+      g.no_obj = rng.chance(0.4)
+      g.deletes = False
+      e = g.tree(rng.randint(2, 3), rng.choice(['dict', 'list', None]), 0.6)
+      enodes = [(p_, n_) for p_, n_ in all_nodes(e) if p_]
+      if not enodes:
+        continue
+      epath, enode = rng.choice(enodes)
+      for _, x in all_nodes(enode):
+        x['sub'] = False          # a copy of a subscribing Dict / List would share the callback of the original
+      t = g.tree(rng.randint(1, 2), None, rng.choice([0.6, 1.0]))
+      shadows = {'tree': json.loads(json.dumps(t)), 'ext': json.loads(json.dumps(e))}
+      steps = []
+      for _ in range(rng.randint(1, 3)):
+        path, node = rng.choice(all_nodes(shadows['tree']))
+        val = lambda: {'from_ext': epath}
+        n_ = len(node['items'])
+        if node['k'] == 'list':
+          opts = [{'name': 'append', 'v': val()}, {'name': 'insert', 'i': rng.randint(0, n_), 'v': val()},
+                  {'name': 'extend', 'via': rng.choice(['extend', 'iadd']), 'vs': [val(), g.value()]},
+                  {'name': 'rebind', 'pairs': [[[n_], val()]]},
+                  {'name': 'setslice', 'a': 0, 'b': 0, 'step': None, 'vs': [val()]}]
+          if n_:
+            i = rng.below(n_)
+            opts += [{'name': 'setkey', 'key': i, 'v': val()}, {'name': 'rebind', 'pairs': [[[i], val()]]}]
+        elif node['k'] == 'dict':
+          k = rng.choice(DKEYS)
+          opts = [{'name': 'setkey', 'key': k, 'v': val()}, {'name': 'rebind', 'pairs': [[[k], val()]]},
+                  {'name': 'update', 'kvs': [[k, val()]]}]
+        else:
+          k = rng.choice(FIELDS)
+          opts = [{'name': 'setkey', 'key': k, 'v': val()}, {'name': 'rebind', 'pairs': [[[k], val()]]}]
+        step = {'recv': path, 'notify': rng.chance(0.9), 'call': rng.choice(opts)}
+        steps.append(step)
+        mirror(shadows['tree'], literal(json.loads(json.dumps(step)), e))
+      made += 1
+      yield {'tree': t, 'ext': e, 'steps': steps, 'forest': True}
+
   def model_request(self, case):
     if case.get('facts_only'):
       return None
     steps = []
-    for s_ in case['steps']:
+    for s_ in (literal(case['steps'], case['ext']) if case.get('forest') else case['steps']):
       if 'scope' in s_:
         steps.append(s_)
         continue
@@ -1630,6 +1804,7 @@ class C09(Prop):
     del _KEEP[:]
     REACT.clear()
     RSTATE.update(root=None, fuel=0, depth=0)
+    READERS[0] = False
     workers = []
     # the harness thread starts from "notifications enabled", whatever an earlier case left behind
     with pg.notify_on_change(True):
@@ -1683,7 +1858,10 @@ class C09(Prop):
                 return True, None
               except Exception as e:    # pylint: disable=broad-except
                 return False, type(e).__name__
+          snapshot_objects(root, ext)
           ok, err = worker.run(call)
+          ident = [[e['recv']] + b_ for e in LOG for b_ in e.get('ident', [])]
+          PRE_OBJS.clear()
           events = canon_log(LOG)
           bound = [b_ for b_ in BOUND if b_ is not None]      # None: the _on_bound of a value under construction
           outs.append({'ok': ok, 'err': err, 'events': events, 'bound': bound,
@@ -1691,7 +1869,7 @@ class C09(Prop):
                        'reads': leafmap_reads(trees[which]),
                        'value': canon(trees[which]), 'pre': pre, 'other': canon(trees[other]), 'pre_other': pre_other,
                        'links': [[w_, p_] for w_ in ('tree', 'ext') for p_ in bad_links(trees[w_])],
-                       'tagged': [], 'nested': []})
+                       'tagged': [], 'nested': [], 'ident': ident})
         model = {'steps': [{'ok': o['ok'], 'events': o['events'], 'reads': o['reads'], 'value': o['value']} for o in outs]}
         return {'model': model, 'steps': outs}
       finally:
@@ -1713,6 +1891,7 @@ class C09(Prop):
     for rid, rpath, rcall in case.get('react', []):
       REACT[rid] = {'recv': rpath, 'call': rcall}
     RSTATE.update(root=root, fuel=case.get('fuel', 0), depth=0)
+    READERS[0] = bool(case.get('readers'))
     chosen = case.get('reads') == 'chosen'
     if not chosen:
       read_all(root)
@@ -1731,6 +1910,7 @@ class C09(Prop):
       if 'keep' in step:
         kept.append(navigate(root, step['keep']))
       base_node = kept[step['detached']] if 'detached' in step else root
+      snapshot_objects(root, *kept)
       with contextlib.ExitStack() as stack:
         if not step['notify']:
           stack.enter_context(pg.notify_on_change(False))
@@ -1741,11 +1921,13 @@ class C09(Prop):
           err = type(e).__name__
       events = canon_log(LOG)
       tagged = [dict(e) for e in LOG]
+      ident = [[e['recv']] + b_ for e in LOG for b_ in e.get('ident', [])]
+      PRE_OBJS.clear()
       nested = list(RSTATE['calls'])
       bound = [b_ for b_ in BOUND if b_ is not None]      # None: the _on_bound of a value under construction
       if chosen:
         outs.append({'ok': ok, 'err': err, 'events': events, 'reads': [], 'value': canon(root), 'pre': pre, 'stale': [],
-                     'bound': bound, 'tagged': tagged, 'nested': nested})
+                     'bound': bound, 'tagged': tagged, 'nested': nested, 'ident': ident})
         continue
       got = read_all(root)
       placeholders = has_placeholder(root)
@@ -1763,7 +1945,7 @@ class C09(Prop):
       with_reads = not case.get('facts_only')
       outs.append({'ok': ok, 'err': err, 'events': events, 'reads': leafmap_reads(root) if with_reads else [],
                    'value': canon(root), 'pre': pre, 'stale': stale, 'bound': bound, 'tagged': tagged,
-                   'nested': nested})
+                   'nested': nested, 'ident': ident})
     model = {'steps': [{'ok': o['ok'], 'events': o['events'], 'reads': o['reads'], 'value': o['value'],
                         'err': o.get('err')} for o in outs]}
     return {'model': model, 'steps': outs}
@@ -1835,7 +2017,7 @@ class C09(Prop):
         continue
       which = 'ext' if step.get('in') == 'ext' else 'tree'
       st = stacks.get(ti, [])
-      eff = dict(step, notify=bool(step['notify']) and (st[-1] if st else True))
+      eff = literal(dict(step, notify=bool(step['notify']) and (st[-1] if st else True)), case['ext'])
       name = step['call']['name']
       if o['other'] != o['pre_other']:
         return {'signature': 'changed-other-tree:' + name,
@@ -1931,6 +2113,10 @@ class C09(Prop):
                 'what': '%s changed %s but no event reached the subscribing nodes %s' % (name, changed[:2], subs)}
       if not CLEAR_NOTIFIES[0]:
         return None
+    if o.get('ident'):
+      return {'signature': 'payload-not-the-stored-object:' + name,
+              'what': 'after %s the events carry values that are not the objects of the tree: %s' % (
+                  json.dumps(step['call'])[:150], o['ident'][:3])}
     ids = [e['recv'] for e in events]
     bound = o.get('bound')
     if bound is not None:
@@ -2186,6 +2372,8 @@ class C09(Prop):
       h.append('re-entrant handlers: fuel %d' % case.get('fuel', 0))
       for o in out['steps']:
         h.append('nested-calls:%d' % min(len(o.get('nested', [])), 6))
+    if case.get('readers'):
+      h.append('handlers-read-derived-facts')
     if case.get('forest'):
       h.append('forest:threads=%d' % case.get('threads', 0))
       if has_ref(case['tree']):
